@@ -11,5 +11,5 @@ VARIABLES len, g
 Init == len = 0 /\ g = 0
 Next == \/ /\ len = 0 /\ len' \in {2 * k : k \in 1 .. (MaxLen \div 2)} /\ g' = 0
         \/ /\ len # 0 /\ g = 0 /\ g' \in 1 .. MaxG /\ len' = len
-GridStatic == (len # 0 /\ g # 0) => P!StaticOK(len, g)
+GridStatic == (len # 0 /\ g # 0) => (P!StaticOK(len, g) /\ P!ProofHypotheses(len, g))
 =============================================================================
